@@ -14,7 +14,10 @@ RULE = ("one request per case, per guarded entry point; non-trivial = an argumen
         "operand of the new and of the old shape; x within 3 ulp or a geometric ladder 1e-16..1e-4 of the converted domain ends and tolerance points); for tables of 2 .. 1000+ points "
         "whose object has served ascending / repeated / far-jump / descending requests that leave its search state 0..17 intervals from either end: the request inside the 1 % band "
         "beyond that end (at 1e-13 .. 0.99 of the band and at 1 ulp) and just beyond it; tables with a repeated or misplaced +-inf abscissa; Save_Function with a last interval of "
-        "1 .. 2^30 ulp; distinct by case text")
+        "1 .. 2^30 ulp; two-argument requests (Integrate, Local_Minimum/Maximum, integration limits, root brackets) whose arguments coincide or differ by 1 ulp / 1e-16 .. 1e-6, at every kind of place "
+        "(inside, ends, tolerance band, tolerance point +-1 ulp, beyond, infinite, NaN); a guarded request made by the call-back of Integrate / Integrate_2D / Integrate_3D / Find_Root on its 1st..3rd evaluation, "
+        "for every method and every ascending / descending / coinciding pattern of the limits; a request on either side of a guard that follows other requests in the same process (returned ones of every entry point, "
+        "calls abandoned by an exception from the call-back, integrations with descending limits, Monte Carlo integrations); distinct by case text")
 LEVEL_TEXT = ("Theorems (Coq, all argument values, sizes and table lengths): for every guarded entry point the guard model returns Exit exactly when "
               "the request is outside the stated domain (index < size; shapes conformable; square; 3-vectors; strictly increasing table of >= 2 points with equal "
               "list lengths and rows of the right size; x not at or beyond d0 - 0.01 (x1-x0) / d1 + 0.01 (x_{N-1}-x_{N-2}) (over R, strict <); sign change or zero end value, "
@@ -26,6 +29,11 @@ LEVEL_TEXT = ("Theorems (Coq, all argument values, sizes and table lengths): for
               "its domain and reads nothing out of bounds, and afterwards every guard is the stateless one on (Rows(), Columns()) (same for Vector); a sequence of Factorial / "
               "Binomial_Coefficient requests returns iff each one is meaningful, for every content of the memo table; a sequence of requests on one Interpolation object (Save_Function's sweep over Linear_Space(domain) included) exits iff one of them does, "
               "and every index its Locate requests return lies in 0..N-2 for every table length and unit argument; Save_Function returns for every number of points in exact arithmetic (over R). "
+              "Coinciding arguments: Integrate(x, x) and Local_Minimum/Maximum(x, x) are refused exactly when Interpolate(x) is. Requests made while another one runs or after others in the process: "
+              "Integrate / Integrate_2D / Integrate_3D around a call-back end the process iff the method is unknown or the call-back is reached (no pair of limits coincides for the nested methods; always for the Monte Carlo methods) and its request ends it, "
+              "descending limits are judged like ascending ones, an exception of the call-back reaches the caller, Find_Root evaluates its function before it tests the bracket (over R resp. every number type); "
+              "a sequence of requests in one process goes on iff each returns, and a request after returned ones has its own outcome (this is a statement about the model's composition: that the real process carries no state from one request "
+              "to the diagnostic of the next - stream state, statics - is observed by the run, which truncates the captured output before every request of a sequence and runs every sequence in a process of its own). "
               "Unit arguments: Interpolation(x, f, x_dim, f_dim) with x_dim <= 0 leaves the table as it is, with x_dim > 0 the converted table is strictly increasing again, `domain` is its "
               "first and last abscissa and the 1 % rule is the one of the converted table (over R). "
               "Index/shape theorems are over Z and hold for the unsigned 32-bit arithmetic of the code (wrap-around explicit); order-only theorems are over an abstract "
@@ -40,7 +48,7 @@ LEVEL_TEXT = ("Theorems (Coq, all argument values, sizes and table lengths): for
 LEVEL_NOTE = ("Coq 8.16.1 kernel; guard model hand-written from the current sources, containers abstracted to their sizes where their contents do not matter; "
               "theorems over Z/nat and the abstract order are axiom-free, theorems over R use the standard library's real-number axioms; Locate is modelled with its bisection branch "
               "(the hunt branch returns the same index: C09; the run checks it on every request sequence against an untouched copy of the object); Linear_Space is modelled inside Save_Function; std::sort/unique/is_sorted/upper_bound modelled by their specifications; process exit status, diagnostics and "
-              "sanitizer reports are observed, not proved")
+              "sanitizer reports are observed, not proved; for `nested` cases the model assumes that every quadrature method evaluates its integrand at least three times on a non-empty interval (boost / the library's own rules do) and Find_Root twice")
 TOL = (0.0, 0.0)
 TRUSTED = ["fork/exit-status/diagnostic capture of harness/common.hpp; AddressSanitizer, UBSan and _GLIBCXX_ASSERTIONS as detectors of out-of-bounds accesses",
            "std::is_sorted / std::upper_bound / std::sort / std::unique are modelled by their specifications"]
@@ -878,7 +886,7 @@ def gen_coinciding(rng, big, add, grids):
     """two-argument requests whose arguments coincide or nearly coincide (Integrate(x, x), Local_Minimum(x, x), ...): x at every kind of place -
     inside, at the ends, in the tolerance band, at the tolerance point +-ulp, beyond it by a little and by a lot, infinite, NaN - and pairs
     (x, x') at relative distances 1 ulp, 1e-16 .. 1e-6 in both orders; as first request of an object and after other requests"""
-    for g in (grids if big else grids[:3] + rng.sample(grids[3:], 2)):
+    for g in (grids if big else grids[:2] + rng.sample(grids[2:], 2)):
         tl, tr = 1e-2 * (g[1] - g[0]), 1e-2 * (g[-1] - g[-2]); w = g[-1] - g[0]
         xs = [g[0], g[-1], 0.5 * (g[0] + g[1]), g[len(g) // 2], g[0] - 0.5 * tl, g[-1] + 0.5 * tr, g[0] - tl, g[-1] + tr, na(g[0] - tl, math.inf), na(g[0] - tl, -math.inf),
               na(g[-1] + tr, math.inf), na(g[-1] + tr, -math.inf), g[0] - 1.2 * tl, g[-1] + 1.2 * tr, g[0] - 0.5 * (g[1] - g[0]), g[-1] + 0.5 * (g[-1] - g[-2]), g[0] - 3.0 * w, g[-1] + 10.0 * w,
@@ -896,7 +904,7 @@ def gen_coinciding(rng, big, add, grids):
                 add(f"icalls {flist(g)} {len(g)} {hx(xd)} {hx(-1.0)} {len(pre) + 1} " + " ".join(pre + [f"{rng.choice(['int', 'int', 'min', 'max'])} {hx(x * f)} {hx(x * f)}"]), "coinciding-arguments", nt=True)
             if math.isnan(x) or math.isinf(x) or x == 0.0: continue
             near = [na(x, math.inf), na(x, -math.inf)] + [x * (1.0 + sg * r_) for r_ in (1e-16, 1e-13, 1e-10, 1e-6) for sg in (1.0, -1.0)]
-            for y in (near if big else rng.sample(near, 2)):
+            for y in (near if big else rng.sample(near, 1)):
                 a, b = (x, y) if rng.random() < 0.5 else (y, x)
                 add(f"interp_integrate {flist(g)} {hx(a)} {hx(b)}", "coinciding-arguments", nt=True)
                 if big: add(f"local_min {flist(g)} {hx(min(a, b))} {hx(max(a, b))}", "coinciding-arguments", nt=True)
@@ -946,7 +954,7 @@ def gen_process_histories(rng, big, add, pool):
         for kx in orders:
             if m not in MMC: ent.append(entry("int1", m, [kx]))
             for ky in orders:
-                if big or m == "Bogus" or rng.random() < 0.7: ent.append(entry("int2", m, [kx, ky]))
+                if big or rng.random() < 0.5: ent.append(entry("int2", m, [kx, ky]))
         for _ in range(1 if not big else 6):
             if m in ("Trapezoidal", "Tanh-Sinh", "Adaptive-Simpson", "Gauss-Kronrod") and not big: continue
             ent.append(entry("int3", m, [rng.choice(orders) for _ in range(3)]))
@@ -955,7 +963,7 @@ def gen_process_histories(rng, big, add, pool):
         ent.append(f"root {e_} {hx(a)} {hx(b)}")
     for e in ent:
         kmax = 2 if e.startswith("root") else 3
-        subs = [rng.choice(bad), rng.choice(bad if rng.random() < 0.5 else good + ["throw"])] if not big else rng.sample(bad, 4) + rng.sample(good, 2) + ["throw"]
+        subs = [rng.choice(bad)] + ([rng.choice(good + ["throw"])] if rng.random() < 0.4 else []) if not big else rng.sample(bad, 4) + rng.sample(good, 2) + ["throw"]
         for sub in subs: add(f"nested {e} {rng.randint(1, kmax)} {sub}", "request-inside-callback", nt=True)
     # (b) histories
     leave = [f"nested {entry('int2', m, [kx, ky])} {rng.randint(1, 3)} throw" for m in M1D + MMC for kx in ("asc", "desc") for ky in ("asc", "desc")]
@@ -964,7 +972,7 @@ def gen_process_histories(rng, big, add, pool):
     leave += [f"nested root - x c 0x1p+0 0x0p+0 0x1.8p+1 {k_} throw" for k_ in (1, 2)]
     leave += [f"nested {entry('int2', m, ['desc', 'desc'])} 1 factorial 5" for m in M1D[:2] + MMC]       # completed integrations with descending limits (warnings are printed)
     leave += [f"nested {entry('int1', m, ['desc'])} 1 vec_at 3 0" for m in M1D]
-    if not big: leave = rng.sample(leave, 40)
+    if not big: leave = rng.sample(leave, 32)
     for h in leave:
         for last in ([rng.choice(bad)] if not big else rng.sample(bad, 3) + [rng.choice(good)]):
             pre = [rng.choice(good)] if rng.random() < 0.3 else []
@@ -984,8 +992,8 @@ def gen_process_histories(rng, big, add, pool):
         try: m = meaningful(l)
         except (ValueError, IndexError): continue
         if m is True and len(goods) < (60 if not big else 1500): goods.append(l)
-        elif m is False and len(bads) < (40 if not big else 800): bads.append(l)
-        if len(goods) >= (60 if not big else 1500) and len(bads) >= (40 if not big else 800): break
+        elif m is False and len(bads) < (30 if not big else 800): bads.append(l)
+        if len(goods) >= (60 if not big else 1500) and len(bads) >= (30 if not big else 800): break
     for i, last in enumerate(bads + goods[:len(goods) // 3]):
         k = rng.choice([1, 2, 3]); seq = [rng.choice(goods) for _ in range(k)] + [last]
         add(f"session {len(seq)} " + " ;; ".join(seq), "process-history", nt=True)
